@@ -393,8 +393,12 @@ func Yield(site uint32, class int) {
 	}
 	t := w.cur
 	src := t.src
-	if src == nil || t.hung {
-		return // only pre-empt inside API calls (and not while a hung call is being unwound)
+	if src == nil || t.hung || t.child {
+		// only pre-empt inside API calls, not while a hung call is being unwound, and not inside
+		// goroutines the library started: those give the baton away only by blocking or ending
+		// (their pre-emptions would have to be recorded per child to replay; the spawner's own
+		// yields can still hand the baton to a child or to another caller)
+		return
 	}
 	w.Stats.Yields++
 	cy := t.callYields
